@@ -476,8 +476,10 @@ class Parser(ExprParser):
 
         while more:
             # if self.token.type = 'ID' and  typedef-name
-            if not found_type and self.token.typ == "ID":
+            if not found_type and not node.specifier and self.token.typ == "ID":
                 # Find typedef'd names, classes and namespaces
+                # (after a type-specifier such as 'long' an identifier is
+                # the declarator, even if an outer scope uses it as a type)
                 ns = self.namespace.unqualified_lookup(self.token.value)
                 if ns:
                     ns, ns_name = self.nested_namespace(ns)
